@@ -60,7 +60,7 @@ def gen_case(rng, params, idx):
     hier = gen.gen_hierarchy(rng, rng.randint(2, 4), attrs=True)
     names = [s["name"] for s in hier]
     spec = gen.gen_program(rng, hier=hier, npos=rng.choice([1, 1, 2]), nmeth=(3, 6), dep=0.2,
-                           kinds=("leaf", "next", "next", "rec", "fnext"), kw=0.0, other_arity=0.1, catchall=0.7,
+                           kinds=("leaf", "next", "next", "rec", "fnext", "nextalt", "nextalt"), kw=0.0, other_arity=0.1, catchall=0.7,
                            p_strict=0.0 if scn == "invalid_method" else 0.15)
     if scn == "hook_raises" or rng.random() < 0.3:
         # make sure user predicates take part in resolution
@@ -78,8 +78,11 @@ def gen_case(rng, params, idx):
         spec["methods"][0]["pos"][0]["t"] = "Hook"
         for c in ops[:2]:
             c["pos"][0] = ["i", hier[0]["name"]]
-    # the faulted call itself is among the later calls that must behave
-    spec.update(scenario=scn, late=late, probes=[cg.call(rng, p_kw=0) for _ in range(6)] + ops[:2],
+    # the first later calls reach the argument types of the faulted call *through a delegation* (call_next / recurse with
+    # those arguments from a call on other types), before any direct call with them; then random calls; then the
+    # faulted call itself
+    via = [dict(ops[0], alt=list(ops[1]["pos"])), dict(ops[2], alt=list(ops[1]["pos"])), dict(ops[2], alt=list(ops[0]["pos"]))]
+    spec.update(scenario=scn, late=late, probes=via + [cg.call(rng, p_kw=0) for _ in range(4)] + ops[:2],
                 op_calls=ops, stride=params["stride"], badkind=rng.choice(["names", "callnext", "nosource"]))
     return spec
 
